@@ -21,26 +21,19 @@ open PvModel.Signers PvProofs.Lemmas.Signers PvProofs.Lemmas.SignersCallers
 
 /-! ### writing / deleting a scope -/
 
-/-- "Writing a Scope": the roles of the scope spec are present in the proposed owners, the
-PROVENANCE rule holds for them, and — if the scope exists — with rollup all `optional = false`
-existing owners are covered and each required role has its own covered existing owner; without
-rollup (and a change) all existing owners are covered.  A new scope asks for no signature.
-
-FULL STATEMENT (false of the code, see `writeScope_spec_swap_accepted`): for the roles
-`existingRoles` of the stored scope's specification and `proposedRoles` of the specification
-the proposed scope names,
-`validateWriteScope env existing proposed proposedRoles signers = .ok () →
-  (Spec.writeScopeReq existing proposed existingRoles).ok env "WriteScope" signers`.
-PARTIAL: it holds when the write keeps the specification (`proposedRoles = existingRoles`);
-what is missing is any tie between the two specifications in `ValidateWriteScope`
-(scope.go:472 looks the specification up with `proposed.SpecificationId` only). -/
-theorem writeScope_only_when_partial (env : Env) (hv : env.valid "" = false) (existing : Option Scope)
-    (proposed : Scope) (existingRoles proposedRoles : List Role) (signers : List Addr)
-    (hsame : proposedRoles = existingRoles)
-    (h : validateWriteScope env existing proposed proposedRoles signers = .ok ()) :
-    Spec.rolesPresent proposed.owners proposedRoles = true ∧ Spec.provenanceRoleOk env proposed.owners = true
-      ∧ (Spec.writeScopeReq existing proposed existingRoles).ok env "WriteScope" signers = true := by
-  subst hsame
+/-- "Writing a Scope", full strength: the roles of the NAMED specification are present in the
+proposed owners, the PROVENANCE rule holds for them, and — if the scope exists — with rollup
+all `optional = false` existing owners are covered and each role required by the GOVERNING
+specification has its own covered existing owner; without rollup (and a change) all existing
+owners are covered.  A new scope asks for no signature.
+The governing specification is the stored scope's (`existingSpecRoles`: it differs from the
+named one and still exists) and otherwise the named one (same id, or the stored one is gone). -/
+theorem writeScope_only_when (env : Env) (hv : env.valid "" = false) (existing : Option Scope)
+    (proposed : Scope) (specRoles : List Role) (existingSpecRoles : Option (List Role)) (signers : List Addr)
+    (h : validateWriteScope env existing proposed specRoles existingSpecRoles signers = .ok ()) :
+    Spec.rolesPresent proposed.owners specRoles = true ∧ Spec.provenanceRoleOk env proposed.owners = true
+      ∧ (Spec.writeScopeReq existing proposed (existingSpecRoles.getD specRoles)).ok env "WriteScope" signers
+          = true := by
   unfold validateWriteScope at h
   simp only [orElse_ok_iff, validateRolesPresent_accepts_iff, validateProvenanceRole_fresh_iff] at h
   obtain ⟨h1, h2, h3⟩ := h
@@ -62,31 +55,15 @@ theorem writeScope_only_when_partial (env : Env) (hv : env.valid "" = false) (ex
         rw [withoutPartiesOk_getPartyAddresses] at this
         simpa [Spec.Req.ok] using this
 
-/-- The stored rollup scope of the witness: `A` OWNER and `B` SERVICER, both optional; its
-specification requires an OWNER. -/
-def swapExisting : Scope := { owners := [⟨"A", 5, true⟩, ⟨"B", 2, true⟩], rollup := true }
-/-- What `B` proposes: itself as the only owner, under another specification (`other` differs)
-that requires a SERVICER. -/
-def swapProposed : Scope := { owners := [⟨"B", 2, true⟩], rollup := true, other := 1000 }
-
-/-- DEFECT WITNESS (known finding C10-scope-spec-swap, replayed on the real keeper by
-corpus/C10/signers.boundary.ops): signed by `B` alone, the update is rejected under the stored
-scope's specification, but the same signer rewrites the scope — dropping `A` — by naming a
-specification that requires only its own role; the documented requirement (an OWNER of the
-existing scope signs) is not met. -/
-theorem writeScope_spec_swap_accepted :
-    validateWriteScope exEnv (some swapExisting) swapExisting [5] ["B"] ≠ .ok ()
-    ∧ validateWriteScope exEnv (some swapExisting) swapProposed [2] ["B"] = .ok ()
-    ∧ (Spec.writeScopeReq (some swapExisting) swapProposed [5]).ok exEnv "WriteScope" ["B"] = false := by
-  decide
-
 theorem writeScope_iff (env : Env) (hv : env.valid "" = false) (existing : Option Scope)
-    (proposed : Scope) (roles : List Role) (signers : List Addr) (hnc : NoContracts env signers) :
-    validateWriteScope env existing proposed roles signers = .ok () ↔
-      Spec.rolesPresent proposed.owners roles = true ∧ Spec.provenanceRoleOk env proposed.owners = true
-        ∧ (Spec.writeScopeReq existing proposed roles).ok env "WriteScope" signers = true := by
+    (proposed : Scope) (specRoles : List Role) (existingSpecRoles : Option (List Role)) (signers : List Addr)
+    (hnc : NoContracts env signers) :
+    validateWriteScope env existing proposed specRoles existingSpecRoles signers = .ok () ↔
+      Spec.rolesPresent proposed.owners specRoles = true ∧ Spec.provenanceRoleOk env proposed.owners = true
+        ∧ (Spec.writeScopeReq existing proposed (existingSpecRoles.getD specRoles)).ok env "WriteScope" signers
+            = true := by
   constructor
-  · exact writeScope_only_when_partial env hv existing proposed roles roles signers rfl
+  · exact writeScope_only_when env hv existing proposed specRoles existingSpecRoles signers
   · rintro ⟨h1, h2, h3⟩
     unfold validateWriteScope
     simp only [orElse_ok_iff, validateRolesPresent_accepts_iff, validateProvenanceRole_fresh_iff]
@@ -108,6 +85,31 @@ theorem writeScope_iff (env : Env) (hv : env.valid "" = false) (existing : Optio
           rw [thenSC_of_noContracts env _ signers hnc, accepts_allRequiredSigned_iff env hv,
             withoutPartiesOk_getPartyAddresses]
           simpa [Spec.Req.ok] using h3
+
+/-- The stored rollup scope of the witness: `A` OWNER and `B` SERVICER, both optional; its
+specification requires an OWNER. -/
+def swapExisting : Scope := { owners := [⟨"A", 5, true⟩, ⟨"B", 2, true⟩], rollup := true }
+/-- What `B` proposes: itself as the only owner, under another specification (`other` differs)
+that requires a SERVICER. -/
+def swapProposed : Scope := { owners := [⟨"B", 2, true⟩], rollup := true, other := 1000 }
+
+/-- HISTORICAL DEFECT WITNESS (C10-scope-spec-swap, fixed by commit 89425229f), about the
+pre-fix rule `validateWriteScopePreFix`: signed by `B` alone, the update was rejected under
+the stored scope's specification, but the same signer rewrote the scope — dropping `A` — by
+naming a specification that requires only its own role, although the documented requirement
+(an OWNER of the existing scope signs) is not met. -/
+theorem writeScope_spec_swap_accepted_before_fix :
+    validateWriteScopePreFix exEnv (some swapExisting) swapExisting [5] ["B"] ≠ .ok ()
+    ∧ validateWriteScopePreFix exEnv (some swapExisting) swapProposed [2] ["B"] = .ok ()
+    ∧ (Spec.writeScopeReq (some swapExisting) swapProposed [5]).ok exEnv "WriteScope" ["B"] = false := by
+  decide
+
+/-- The same call on the current code (the stored scope's specification requires OWNER and is
+found) is rejected; with `A`'s signature it is accepted. -/
+theorem writeScope_spec_swap_rejected :
+    validateWriteScope exEnv (some swapExisting) swapProposed [2] (some [5]) ["B"] ≠ .ok ()
+    ∧ validateWriteScope exEnv (some swapExisting) swapProposed [2] (some [5]) ["A", "B"] = .ok () := by
+  decide
 
 /-- "Deleting a Scope" -/
 theorem deleteScope_only_when (env : Env) (hv : env.valid "" = false) (scope : Scope)
@@ -469,8 +471,8 @@ example : Spec.covered exEnv "WriteRecord" ["A", "B"] "C" = false := by decide
 -- sessions, scopes, deletes: accepted calls exist with and without rollup
 example : validateWriteSession exEnv exScope none [⟨"B", 2, true⟩] [2] ["A", "B"] = .ok () := by decide
 example : validateWriteSession exEnv exPlain none [⟨"D", 2, false⟩] [2] ["A", "B"] = .ok () := by decide
-example : validateWriteScope exEnv (some exPlain) { exPlain with other := 1 } [5] ["A", "B"] = .ok () := by decide
-example : validateWriteScope exEnv (some exPlain) { exPlain with other := 1 } [5] ["A"] ≠ .ok () := by decide
+example : validateWriteScope exEnv (some exPlain) { exPlain with other := 1 } [5] none ["A", "B"] = .ok () := by decide
+example : validateWriteScope exEnv (some exPlain) { exPlain with other := 1 } [5] none ["A"] ≠ .ok () := by decide
 example : validateDeleteScope exEnv exScope (some [10]) ["A"] = .ok () := by decide
 example : validateDeleteRecord exEnv (some exScope) (some [2, 2]) ["A", "B", "C"] = .ok () := by decide
 example : validateUpdateScopeOwners exEnv "AddScopeOwner" exScope (exOwners ++ [⟨"D", 5, true⟩]) [10] ["A"]
